@@ -126,3 +126,44 @@ def build(reg, src):
         return res
     frames.__name__ = 'frames'
     reg.extra_checks.append(frames)
+
+    # rebinding by a program (the Define verb) must go through KlongInterpreter.__setitem__, which clears the compiled cache: otherwise
+    # the result of a text depends on what was evaluated before the rebinding.  The obligation is C05's contract of eval_dyad_define,
+    # re-verified here with its own registry (one function, ~1 s).
+    def define_clears_caches(ctx):
+        from pyvc.contracts import Registry
+        from pyvc.engine import Engine
+        from pyvc import smt
+        from pyvc.values import Refuse
+        from contracts import c05
+        reg2 = Registry('C04')
+        c05.build(reg2, src)
+        reg2.extra_checks[:] = []
+        eng2 = Engine(src, reg2)
+        eng2._names = set()
+        c05.configure(eng2)
+        key = 'klongpy/dyads.py::eval_dyad_define'
+        try:
+            eng2.verify_fn(key)
+        except Refuse as e:
+            return [dict(name=key + '#refused', ok=False, undecided=True, backend='z3', detail=f"refused: {e}")]
+        smt.discharge(eng2.obligations, timeout_s=20)
+        rows = []
+        for o in eng2.obligations:
+            if o.meta.get('kind') in ('vacuity-neg', 'vacuity-cover'):
+                continue
+            if o.result == 'unsat':
+                rows.append(dict(name=o.name, ok=True, backend=o.backend, detail='rebinding goes through __setitem__ (cache cleared: C09)'))
+            elif o.result == 'sat':
+                from pyvc.run import run_replay
+                import replay.c05 as rp5
+                r = run_replay(rp5.replay_rebinding, {}, o.name, timeout_s=60)
+                rows.append(dict(name=o.name, ok=False, backend=o.backend, confirmed=bool(r.get('confirmed')), replay=dict(result=r, goal=str(o.goal)[:800]),
+                                 detail='Define writes the context without going through KlongInterpreter.__setitem__: the compiled cache keeps code of the old binding'
+                                        + (f" | real code: {r.get('detail')}" if r.get('confirmed') else '')))
+            else:
+                rows.append(dict(name=o.name, ok=False, undecided=True, backend=o.backend, detail='undecided'))
+        ctx['eng'].verified[key] = dict(sha=src.sha(src.find(key)), backend='z3 (own registry, contract of contracts/c05.py)')
+        return rows
+    define_clears_caches.__name__ = 'define-clears-caches'
+    reg.extra_checks.append(define_clears_caches)
